@@ -489,6 +489,12 @@ func dischargeBounds(c *Ctx, s partialSite) (bool, string) {
 			}
 		}
 	}
+	// x[lo : K+n (: K+n)] behind a test that len(x)-K2 >= n (K2 >= K >= lo, all arithmetic in int)
+	if sl, ok := s.Instr.(*ssa.Slice); ok && sl.High != nil {
+		if how, ok := offsetSliceUnderGuard(fn, sl); ok {
+			return true, how
+		}
+	}
 	// x[:len(x)-k] behind strings/bytes.HasSuffix(x, const) with len(const) >= k, or behind len(x) >= k
 	if sl, ok := s.Instr.(*ssa.Slice); ok && sl.High != nil && sl.Low == nil && sl.Max == nil {
 		if bo, ok := strip(sl.High).(*ssa.BinOp); ok && bo.Op == token.SUB && isLenOf(bo.X, sl.X) {
@@ -603,6 +609,13 @@ func sameBuf(a, b ssa.Value) bool {
 	a, b = strip(a), strip(b)
 	if a == b {
 		return true
+	}
+	// a lazily allocated buffer (var buf []byte; if buf == nil { buf = make(...) }): every version of
+	// the variable is nil-before-the-loop or the one allocation
+	if la, oka := lazyBuffer(a); oka {
+		if lb, okb := lazyBuffer(b); okb && la == lb {
+			return true
+		}
 	}
 	// both are whole-slices of the same array allocation: make([]T, const)
 	sa, ok1 := a.(*ssa.Slice)
@@ -842,4 +855,137 @@ func offsetCountBounded(sl *ssa.Slice) (string, bool) {
 		return "", false
 	}
 	return fmt.Sprintf("io.Reader contract: Read(buf[%d:]) returns 0 <= n <= len(buf)-%d, so buf[%d:%d+n] is within buf", k1, k1, lo, k2), true
+}
+
+// lazyBuffer: v is a version (phi) of a variable whose only values are nil, entering from outside
+// any loop, and one allocation; returns that allocation. Once the variable holds the allocation it
+// keeps it, so two versions are the same buffer whenever both are non-nil.
+func lazyBuffer(v ssa.Value) (ssa.Value, bool) {
+	phi, ok := v.(*ssa.Phi)
+	if !ok {
+		return nil, false
+	}
+	var alloc ssa.Value
+	seen := map[*ssa.Phi]bool{}
+	var walk func(p *ssa.Phi) bool
+	walk = func(p *ssa.Phi) bool {
+		if seen[p] {
+			return true
+		}
+		seen[p] = true
+		for i, e := range p.Edges {
+			switch x := strip(e).(type) {
+			case *ssa.Phi:
+				if !walk(x) {
+					return false
+				}
+			case *ssa.Const:
+				if !x.IsNil() || inCycle(p.Block().Preds[i]) {
+					return false // reset to nil inside the loop: a later version may be nil again
+				}
+			default:
+				if _, isFixed := fixedLenNoPhi(x); !isFixed {
+					return false
+				}
+				if alloc != nil && alloc != ssa.Value(x) {
+					return false
+				}
+				alloc = x
+			}
+		}
+		return true
+	}
+	if !walk(phi) || alloc == nil {
+		return nil, false
+	}
+	return alloc, true
+}
+
+// offsetSliceUnderGuard: the site is x[lo:K+n] (or x[lo:K+n:K+n]) with constants lo <= K and an int
+// n, and every path to it crosses a branch establishing len(x)-K2 >= n, or len(x) >= K2+n, with
+// K2 >= K — so K+n <= len(x). n must be non-negative by type (a conversion of an unsigned value) and
+// the sum must be computed in int (no narrow wrap-around).
+func offsetSliceUnderGuard(fn *ssa.Function, sl *ssa.Slice) (string, bool) {
+	if sl.Max != nil && sl.Max != sl.High {
+		return "", false
+	}
+	isInt := func(v ssa.Value) bool {
+		bt, ok := v.Type().Underlying().(*types.Basic)
+		return ok && bt.Kind() == types.Int
+	}
+	splitSum := func(v ssa.Value) (k int64, n ssa.Value, ok bool) {
+		bo, isBo := strip(v).(*ssa.BinOp)
+		if !isBo || bo.Op != token.ADD || !isInt(bo) {
+			return 0, nil, false
+		}
+		if kk, isC := constInt(bo.X); isC {
+			return kk, bo.Y, true
+		}
+		if kk, isC := constInt(bo.Y); isC {
+			return kk, bo.X, true
+		}
+		return 0, nil, false
+	}
+	K, n, ok := splitSum(sl.High)
+	if !ok || K < 0 {
+		return "", false
+	}
+	lo := int64(0)
+	if sl.Low != nil {
+		k, isC := constInt(sl.Low)
+		if !isC {
+			return "", false
+		}
+		lo = k
+	}
+	if lo > K || lo < 0 {
+		return "", false
+	}
+	// n >= 0: an int converted from an unsigned narrower type
+	nonNeg := false
+	for _, cand := range []ssa.Value{n, unspill(n), strip(n)} {
+		if cv, isCv := cand.(*ssa.Convert); isCv {
+			if bt, isB := cv.X.Type().Underlying().(*types.Basic); isB && bt.Info()&types.IsUnsigned != 0 {
+				nonNeg = true
+			}
+		} else if bt, isB := cand.Type().Underlying().(*types.Basic); isB && bt.Info()&types.IsUnsigned != 0 {
+			nonNeg = true // (conversion already peeled: the value itself is unsigned)
+		}
+	}
+	if !nonNeg {
+		return "", false
+	}
+	sameN := func(v ssa.Value) bool { return strip(v) == strip(n) || v == n }
+	g := GCmp(func(a ssa.Value, op token.Token, b ssa.Value) bool {
+		// len(x)-K2 >= n   /  n <= len(x)-K2
+		lenMinus := func(v ssa.Value) (int64, bool) {
+			bo, isBo := strip(v).(*ssa.BinOp)
+			if !isBo || bo.Op != token.SUB || !isLenOf(bo.X, sl.X) {
+				return 0, false
+			}
+			return constInt(bo.Y)
+		}
+		if k2, ok := lenMinus(a); ok && sameN(b) && k2 >= K {
+			return op == token.GEQ
+		}
+		if k2, ok := lenMinus(b); ok && sameN(a) && k2 >= K {
+			return op == token.LEQ
+		}
+		// len(x) >= K2+n  /  K2+n <= len(x)
+		if isLenOf(a, sl.X) {
+			if k2, n2, ok := splitSum(b); ok && sameN(n2) && k2 >= K {
+				return op == token.GEQ
+			}
+		}
+		if isLenOf(b, sl.X) {
+			if k2, n2, ok := splitSum(a); ok && sameN(n2) && k2 >= K {
+				return op == token.LEQ
+			}
+		}
+		return false
+	})
+	if pass, _ := mustPass(fn, sl, g); pass {
+		return fmt.Sprintf("behind a test that len(x)-%d >= n for the window x[%d:%d+n]", K, lo, K), true
+	}
+	return "", false
 }
